@@ -361,8 +361,27 @@ fn cmd_panic(prop: &str) -> i32 {
 fn cmd_threads(prop: &str) -> i32 {
     let mut rec = Recorder::new(prop, "n-threads", "N: generated scripts for 2..8 real threads (1..12 ops each: Injector{install a thread-specific fake on the shared function, n calls, exit by drop or panic} | Preventer{n calls, exit by drop or panic} | Spin) released by a barrier, plus a generated pause plan (up to 4 (interposed call kind, ordinal) points at which the thread inside an installation or inside the injector's drop waits up to 0.1-2 ms or until another thread reports an acquisition); oracle: measured holders <= 1 at all times (measured period is a subset of the true one), a preventer sees only the original value, injector t sees only its own fake, no acquisition/release panics, all scripts finish (a proven futex deadlock is a violation, any other overrun inconclusive); non-trivial = run with >= 1 contended acquisition and both guard kinds and both exit paths; distinct by scripts");
     rec.assumptions.push("schedules are sampled (OS scheduler + widened windows), not enumerated".into());
+    // one long hold first (generated pauses are milliseconds; a waiter that gives up or falls
+    // through after a while needs a holder that stays that long): 3.5 s, in the thorough tier 35 s
+    {
+        use threads::{TOp, ThreadCase};
+        let ms = if vcommon::tier() == vcommon::Tier::Thorough { 35_000u16 } else { 3_500u16 };
+        let fixed = ThreadCase {
+            scripts: vec![
+                vec![TOp::PreventerHold { ms }],
+                vec![TOp::Spin(300), TOp::Injector { calls: 2, exit_panic: false }, TOp::Preventer { calls: 2, exit_panic: false }],
+                vec![TOp::Spin(350), TOp::Preventer { calls: 2, exit_panic: false }, TOp::Injector { calls: 1, exit_panic: true }],
+            ],
+            pauses: vec![],
+            pause_us: 0,
+        };
+        rec.exhaustive_parts.push(format!("one fixed scenario with a preventer held for {ms} ms while two threads wait"));
+        run_sharded(&mut rec, 4, 1, 1, "threads", Value::Null, Duration::from_secs(80), move || proptest::strategy::Just(fixed.clone()), threads::judge, |c| json!({"ThreadCase": c}));
+    }
     let n = cases(1600, 24_000);
-    run_sharded(&mut rec, 4, n, shards().min(4), "threads", Value::Null, Duration::from_secs(40), threads::strategy, threads::judge, |c| json!({"ThreadCase": c}));
+    if rec.violations.is_empty() {
+        run_sharded(&mut rec, 4, n, shards().min(4), "threads", Value::Null, Duration::from_secs(40), threads::strategy, threads::judge, |c| json!({"ThreadCase": c}));
+    }
     rec.finish(&out_path())
 }
 
@@ -418,7 +437,7 @@ fn cmd_hist(prop: &str) -> i32 {
         }
         "C17" => {
             let n = cases(3200, 80_000);
-            run_sharded(&mut rec, 17, n, shards(), "hist", optv, Duration::from_secs(60), || hist::strategy(2, 6, true), hist_judge::judge_c17, |c| json!({"HistCase": c, "opts": "C17"}));
+            run_sharded(&mut rec, 17, n, shards(), "hist", optv, Duration::from_secs(60), || hist::strategy_full(2, 6, true, false, 0.08), hist_judge::judge_c17, |c| json!({"HistCase": c, "opts": "C17"}));
         }
         _ => {
             let n = cases(4000, 120_000);
